@@ -266,6 +266,27 @@ fn run(ctx: &mut Ctx) {
         b.truncate(l);
         check(ctx, &b, "valid packet repeated up to a length congruent to 80");
     });
+    // a valid packet followed (or preceded) by a word that is a checksum of it: CRC-32C plain / inverted, either byte
+    // order, word sum, word xor, byte sum; also as a 2-byte trailer
+    ctx.cases("checksum-trailers", 8, |ctx, i, rng| {
+        let base = Trg::simple(rng.next() as u32, [0u32, 77, 0x0FFF_FFFF, 0x1234_5678][(i % 4) as usize]).encode();
+        let crc = crate::enc::crc32c(&base);
+        let words: Vec<u32> = base.chunks(4).map(|c| u32::from_le_bytes(c.try_into().unwrap())).collect();
+        let sum = words.iter().fold(0u32, |a, b| a.wrapping_add(*b));
+        let xor = words.iter().fold(0u32, |a, b| a ^ *b);
+        let bsum = base.iter().fold(0u32, |a, b| a.wrapping_add(*b as u32));
+        for v in [crc, !crc, sum, !sum, sum.wrapping_neg(), xor, !xor, bsum, 0, u32::MAX] {
+            for tr in [v.to_le_bytes().to_vec(), v.to_be_bytes().to_vec(), v.to_le_bytes()[..2].to_vec(), v.to_be_bytes()[2..].to_vec()] {
+                let mut b = base.clone();
+                b.extend(&tr);
+                check(ctx, &b, "valid packet followed by a checksum of itself");
+                let mut b = tr.clone();
+                b.extend(&base);
+                check(ctx, &b, "valid packet preceded by a checksum of itself");
+                ctx.count("packets with a checksum trailer / leader");
+            }
+        }
+    });
     // all orderings / ties of the counters
     ctx.cases("counters", 144, |ctx, i, _rng| {
         let o = vals[(i / 12) as usize];
